@@ -346,7 +346,15 @@ fn batch_case(u: &mut Choices, sz: Size) -> CaseResult {
     // one rule file: --structured merges the rules of all rule files into one report per data
     // file (judged by C09), so pairs are only comparable per rule file
     let nr = 1;
-    let rules: Vec<String> = (0..nr).map(|_| print_file(&gen_wide_file(u, &doc, sz, false))).collect();
+    let rules: Vec<String> = (0..nr)
+        .map(|_| {
+            let mut f = gen_wide_file(u, &doc, sz, false);
+            if u.chance(1, 4) {
+                add_capture_idiom(u, &mut f, &doc);
+            }
+            print_file(&f)
+        })
+        .collect();
     let nd = u.range(2, 3);
     let mut docs = vec![doc.to_json()];
     for _ in 1..nd {
